@@ -585,9 +585,9 @@ int _vnadata_load_npd(vnadata_internal_t *vdip, FILE *fp, const char *filename)
 		if (expect_nnint_arg(&nss, &temp) == -1) {
 		    goto out;
 		}
-		if (temp > VNADATA_MAX_PRECISION) {
+		if (temp < 1 || temp > VNADATA_MAX_PRECISION) {
 		    _vnadata_error(vdip, VNAERR_SYNTAX, "%s (line %d) error: "
-			    "%s may not exceed %d",
+			    "%s must be between 1 and %d",
 			    nss.nss_filename, nss.nss_line,
 			    FIELD(&nss, 0),
 			    VNADATA_MAX_PRECISION);
@@ -607,9 +607,9 @@ int _vnadata_load_npd(vnadata_internal_t *vdip, FILE *fp, const char *filename)
 		if (expect_nnint_arg(&nss, &temp) == -1) {
 		    goto out;
 		}
-		if (temp > VNADATA_MAX_PRECISION) {
+		if (temp < 1 || temp > VNADATA_MAX_PRECISION) {
 		    _vnadata_error(vdip, VNAERR_SYNTAX, "%s (line %d) error: "
-			    "%s may not exceed %d",
+			    "%s must be between 1 and %d",
 			    nss.nss_filename, nss.nss_line,
 			    FIELD(&nss, 0),
 			    VNADATA_MAX_PRECISION);
@@ -777,6 +777,27 @@ int _vnadata_load_npd(vnadata_internal_t *vdip, FILE *fp, const char *filename)
 	 * of the data matrix and the number of fields.
 	 */
 	type = vfdp->vfd_parameter;
+
+	/*
+	 * What vnadata_save refuses to write is not an NPD file: dB of
+	 * a parameter that is neither power nor root-power, insertion
+	 * loss without an off-diagonal element.
+	 */
+	if (vfdp->vfd_format == VNADATA_FORMAT_DB_ANGLE &&
+		!_VNADATA_IS_POWER(vfdp->vfd_parameter)) {
+	    _vnadata_error(vdip, VNAERR_SYNTAX, "%s (line %d) error: "
+		    "%s: only power or root-power parameters can be "
+		    "given in dB",
+		    nss.nss_filename, parameter_line,
+		    _vnadata_format_to_name(vfdp));
+	    goto out;
+	}
+	if (vfdp->vfd_format == VNADATA_FORMAT_IL && ports < 2) {
+	    _vnadata_error(vdip, VNAERR_SYNTAX, "%s (line %d) error: "
+		    "insertion loss requires at least two ports",
+		    nss.nss_filename, parameter_line);
+	    goto out;
+	}
 	switch (vfdp->vfd_parameter) {
 	case VPT_UNDEF:
 	    _vnadata_error(vdip, VNAERR_SYNTAX, "%s (line %d) error: "
